@@ -398,8 +398,10 @@ func classify(err error, got, ref *sparse.Vector, recvBefore *sparse.Vector, rec
 
 func runC07(h *H) {
 	g := h.g
-	cases := h.budget(10, 60)
-	reps := h.budget(40, 400)
+	// budgets: the thorough tier sweeps 120 / 160 cancellation points per call (every poll when there are fewer) on 30
+	// inputs; sweeping EVERY poll of every unlimited compute took more than two hours on a loaded machine
+	cases := h.budget(10, 30)
+	reps := h.budget(40, 120)
 	procsList := []int{1, 2, 4, 16}
 	old := runtime.GOMAXPROCS(0)
 	defer runtime.GOMAXPROCS(old)
@@ -428,8 +430,8 @@ func runC07(h *H) {
 		_ = probe.MulVec(cc, ct, v)
 		polls := int(cc.n.Load())
 		stride := 1
-		if h.tier != "thorough" && polls > 24 {
-			stride = polls / 24
+		if lim := h.budget(24, 120); polls > lim {
+			stride = polls / lim
 		}
 		base := runtime.NumGoroutine()
 		for _, procs := range procsList {
@@ -527,8 +529,8 @@ func runC07(h *H) {
 			_, _ = basic.Compute(cc, c, p, a, e, opts...)
 			polls := int(cc.n.Load())
 			stride := 1
-			if h.tier != "thorough" && polls > 40 {
-				stride = polls / 40
+			if lim := h.budget(40, 160); polls > lim {
+				stride = polls / lim
 			}
 			cIn, pIn := cloneCSR(c), cloneVec(p)
 			base := runtime.NumGoroutine()
